@@ -197,26 +197,46 @@ func (paths *Paths) Find(key string) *PathItem {
 
 func (paths *Paths) validateUniqueOperationIDs() error {
 	operationIDs := make(map[string]string)
-	for urlPath, pathItem := range paths.Map() {
-		if pathItem == nil {
-			continue
-		}
-		for httpMethod, operation := range pathItem.Operations() {
-			if operation == nil || operation.OperationID == "" {
+	// the operations of callbacks count as well; a callback may reach itself, so each one is walked once
+	seenCallbacks := make(map[*Callback]struct{})
+	var walk func(where string, items map[string]*PathItem) error
+	walk = func(where string, items map[string]*PathItem) error {
+		for urlPath, pathItem := range items {
+			if pathItem == nil {
 				continue
 			}
-			endpoint := httpMethod + " " + urlPath
-			if endpointDup, ok := operationIDs[operation.OperationID]; ok {
-				if endpoint > endpointDup { // For make error message a bit more deterministic. May be useful for tests.
-					endpoint, endpointDup = endpointDup, endpoint
+			for httpMethod, operation := range pathItem.Operations() {
+				if operation == nil {
+					continue
 				}
-				return fmt.Errorf("operations %q and %q have the same operation id %q",
-					endpoint, endpointDup, operation.OperationID)
+				endpoint := where + httpMethod + " " + urlPath
+				if operation.OperationID != "" {
+					if endpointDup, ok := operationIDs[operation.OperationID]; ok && endpointDup != endpoint {
+						if endpoint > endpointDup { // For make error message a bit more deterministic. May be useful for tests.
+							endpoint, endpointDup = endpointDup, endpoint
+						}
+						return fmt.Errorf("operations %q and %q have the same operation id %q",
+							endpoint, endpointDup, operation.OperationID)
+					}
+					operationIDs[operation.OperationID] = endpoint
+				}
+				for name, callback := range operation.Callbacks {
+					if callback == nil || callback.Value == nil {
+						continue
+					}
+					if _, seen := seenCallbacks[callback.Value]; seen {
+						continue
+					}
+					seenCallbacks[callback.Value] = struct{}{}
+					if err := walk(endpoint+" callback "+name+": ", callback.Value.Map()); err != nil {
+						return err
+					}
+				}
 			}
-			operationIDs[operation.OperationID] = endpoint
 		}
+		return nil
 	}
-	return nil
+	return walk("", paths.Map())
 }
 
 func normalizeTemplatedPath(path string) (string, uint, map[string]struct{}) {
